@@ -339,3 +339,50 @@ Proof.
       apply IH in R. simpl in R. destruct R as [R1 R2]. split; [|congruence].
       rewrite R1, EL, sends_app, S0, <- app_assoc, E1. reflexivity.
 Qed.
+
+(* ------------------------------------------------------------------ relays *)
+(* stream.rs, stream_compat.rs, either.rs relay the wrapped source one to one: the source itself *)
+Section Relay.
+  Variable A : Type.
+  Variable uh : script A -> hintT.
+
+  Lemma src_runs : forall l, exists l', runs_to (src_m uh) l (items l) l'.
+  Proof.
+    induction l as [|[a| |] r [l' IH]]; simpl.
+    - exists []. apply R_end. reflexivity.
+    - exists l'. eapply R_rdy; [reflexivity|exact IH].
+    - exists l'. eapply R_pend; [reflexivity|exact IH].
+    - exists r. apply R_end. reflexivity.
+  Qed.
+
+  Lemma src_dead : forall l, dead l -> ended_forever (src_m uh) l.
+  Proof.
+    apply (@ended_forever_inv _ (src_m uh) (fun l => dead l)). intros l D.
+    destruct (dead_pull D) as [l' [E D']]. exists l'. split; [exact E|exact D'].
+  Qed.
+
+  Theorem src_spec : truthful uh ->
+    C11_spec (src_m uh) always (fun l => fused_b l = true) (fun l => items l).
+  Proof.
+    intros T. apply mk_spec.
+    - intros l _. apply src_runs.
+    - intros l l' _ F E. apply src_dead. eapply fused_ended_dead; eauto.
+    - intros l _. apply T.
+  Qed.
+End Relay.
+
+(* filter_map_async: everything but the size_hint of states with an item in flight *)
+Theorem fma_spec_partial (A B : Type) (uh : script A -> hintT) (f : A -> nat * option B) :
+  truthful uh ->
+  (forall st, exists st', runs_to (fma_m uh f) st (fma_ref f st) st') /\
+  (forall st n, exists rest, fma_ref f st = emitted (polls (fma_m uh f) n st) ++ rest) /\
+  (forall st s', fused_b (snd st) = true -> pull1 (fma_m uh f) st = (Ended, s') ->
+                 ended_forever (fma_m uh f) s') /\
+  (forall st, fut_out (fst st) = [] -> hint_ok (hint (fma_m uh f) st) (len (fma_ref f st))).
+Proof.
+  intros T. split; [|split; [|split]].
+  - apply fma_runs.
+  - intros st n. destruct (@fma_runs A B uh f st) as [st' R]. exact (emitted_prefix R n).
+  - intros st s'. apply fma_fused.
+  - apply fma_hint_ok. exact T.
+Qed.
